@@ -5,6 +5,8 @@ import PhysisModel.Model.Fault.Fiin
 import PhysisModel.Model.Fault.Gearsets
 import PhysisModel.Model.Fault.Log
 import PhysisModel.Model.Fault.Patchlist
+import PhysisModel.Model.Fault.Patch
+import PhysisModel.Model.Fault.Exec
 namespace Physis.Driver.C17
 open Physis Physis.Proto Physis.F Physis.StrF
 
@@ -61,6 +63,42 @@ def plRoundTrip (k : Patchlist.Kind) (b : Bytes) : String :=
   | .fail => "none"
   | .fault f => "fault:" ++ f.name
 
+/-- the subset of raw deflate the generator emits: one final *stored* block (anything else is
+answered as "does not inflate"; the generator's other streams start with the reserved block type) -/
+def miniInflate (comp : Bytes) (n : Nat) : Bool :=
+  match comp with
+  | h :: l0 :: l1 :: n0 :: n1 :: rest =>
+    if h &&& 7 == 1 then
+      let len := l0.toNat + 256 * l1.toNat
+      let nlen := n0.toNat + 256 * n1.toNat
+      len + nlen == 0xFFFF && len ≤ rest.length && len ≤ n
+    else false
+  | _ => false
+
+def parseTree (s : String) : Option (List Fs.Path × List Fs.Path) :=
+  if s == "-" then some ([], []) else
+  (s.splitOn ";").foldlM (fun (acc : List Fs.Path × List Fs.Path) e =>
+    match e.splitOn ":" with
+    | [k, h] =>
+      match Bytes.ofHex h with
+      | some b =>
+        let p := Fs.components b
+        let pre := (Fs.prefixes p).filter (fun q => !q.isEmpty)
+        if k == "d" then some (acc.1 ++ pre, acc.2)
+        else if k == "f" then some (acc.1 ++ pre.dropLast, acc.2 ++ [p])
+        else none
+      | none => none
+    | _ => none) ([], [])
+
+def applyOutcome (root : Fs.Root) (dirs files : List Fs.Path) (b : Bytes) : String × List String :=
+  let fs : Fs.FS := { root := root, dirs := if root == .dir then dirs else [], files := if root == .dir then files else [] }
+  let m := Patch.apply miniInflate (2 ^ 24) fs b
+  let tags := if m.peak > budget b.length then ["kf:patch-block-decompressed-alloc"] else []
+  match m.res with
+  | .ok _ => ("ok", tags)
+  | .fail => ("err", tags)
+  | .fault f => ("fault:" ++ f.name, tags)
+
 /-- one case line in, one answer line out (see `Base/Proto.lean`) -/
 def handle (line : String) : String :=
   match fields line with
@@ -80,6 +118,32 @@ def handle (line : String) : String :=
       | "pl_boot" => answer "=" (plRoundTrip .boot b) triv
       | "pl_game" => answer "=" (plRoundTrip .game b) triv
       | _ => bad
+  | ["apply", root, tree, mode, h] =>
+    let root? : Option Fs.Root := if root == "dir" then some .dir else if root == "missing" then some .missing
+      else if root == "file" then some .file else none
+    match root?, parseTree tree, Bytes.ofHexFast h with
+    | some r, some (ds, fs), some b =>
+      if mode == "file" then
+        let (o, tags) := applyOutcome r ds fs b
+        answer "=" o tags
+      else if mode == "missing" || mode == "isdir" then answer "=" "err"
+      else bad
+    | _, _, _ => bad
+  | ["execlookup", mode, h] =>
+    match Bytes.ofHexFast h with
+    | some b =>
+      if mode == "file" then answer "=" (outcome (Exec.extractFrontierUrl true (some b)) dBytes b.length)
+      else if mode == "missing" || mode == "isdir" then answer "=" (outcome (Exec.extractFrontierUrl true none) dBytes 0)
+      else bad
+    | none => bad
+  | ["bootdata", mode, h] =>
+    match Bytes.ofHexFast h with
+    | some b =>
+      if mode == "ok" then answer "=" (outcome (Exec.bootData true (some b)) dBytes b.length)
+      else if mode == "nodir" then answer "=" (outcome (Exec.bootData false none) dBytes 0)
+      else if mode == "nover" || mode == "verdir" then answer "=" (outcome (Exec.bootData true none) dBytes 0)
+      else bad
+    | none => bad
   | ["pl_write", k, es] =>
     match kindOf k, plEntries es with
     | some k, some ps =>
